@@ -1276,13 +1276,23 @@ func (x *Exec) callStatic(st *State, fr *Frame, resInstr ssa.Instruction, fn *ss
 		if len(args) != len(fn.Params) {
 			panic(engineErr("arity mismatch calling %s", fn))
 		}
+		pparams := map[string]Value{}
+		paddr := map[string]PtrV{}
 		for i, p := range fn.Params {
 			nf.regs[p] = args[i]
 			nf.env[p.Name()] = envEntry{v: args[i]}
+			pparams[p.Name()] = args[i]
 		}
 		for i, fv := range fn.FreeVars {
 			nf.regs[fv] = bind[i]
 			nf.env[fv.Name()] = envEntry{v: bind[i], isAddr: true}
+			if pv, ok := bind[i].(PtrV); ok {
+				paddr[fv.Name()] = pv
+			}
+		}
+		// entry snapshot of the inlined callee: its loop invariants may speak about old(...)
+		if c := x.contractOf(fn); c != nil && len(c.Loops) > 0 {
+			nf.pre = &preSnap{heap: copyHeap(st.heap), params: pparams, addrParams: paddr, nEvent: len(st.events)}
 		}
 		nf.block = fn.Blocks[0]
 		st.frames = append(st.frames, nf)
